@@ -107,6 +107,7 @@ func main() {
 		fmt.Fprintln(os.Stderr, "accessgen:", err)
 		os.Exit(1)
 	}
+	out += heldCallsCoq(*repo)
 	if cacheDir != "" {
 		if os.MkdirAll(cacheDir, 0o755) == nil {
 			tmp := filepath.Join(cacheDir, fmt.Sprintf(".%s.%d", key, os.Getpid()))
